@@ -246,6 +246,8 @@ DurStdClause(ev) ==
   ELSE IF ~ev.eq THEN "standardized-spelling-not-equal"
   ELSE IF ~ev.hs THEN "standardized-spelling-hashes-differently"
   ELSE IF ev.lt \/ ev.gt THEN "standardized-spelling-strictly-ordered"
+  \* (extended specification: the stored form is the carried one - ImplDur!IStd, checked against the laws by MC_C11's StdOK)
+  ELSE IF ~ID!Same8(ev.s, ID!IStd(ev.a)) THEN "ext:standardize-stored-form"
   ELSE "ok"
 \* C11 beyond what a double holds: two all-integer durations whose exact lengths differ by ev.delta seconds (the common base, far
 \* beyond 2^53 s, is not needed to state the verdicts - and would not fit TLC's integers): == iff delta = 0, order by the sign
